@@ -88,6 +88,7 @@ class _FsClock:
         self.dirty = set()
         self.busy = False
         self.installed = False
+        self.access = None  # callable(event, path) recording node accesses (C09)
 
 
 FS = _FsClock()
@@ -119,9 +120,39 @@ def _mark(p, parent=True, itself=True):
             FS.dirty.add(d)
 
 
+_ACCESS_EVENTS = {
+    "open": 0, "os.listdir": 0, "os.scandir": 0, "os.mkdir": 0, "os.remove": 0, "os.rmdir": 0, "os.rename": (0, 1), "os.link": (0, 1),
+    "os.symlink": (0, 1), "os.utime": 0, "os.chmod": 0, "os.truncate": 0, "shutil.rmtree": 0, "os.chdir": 0, "shutil.copyfile": (0, 1),
+    "shutil.move": (0, 1), "os.chown": 0, "glob.glob": 0, "os.walk": 0,
+}
+
+
+def _record_access(event, path):
+    """C09: remember every path that code of a simulated node touches."""
+    rec = FS.access
+    if rec is None:
+        return
+    try:
+        if not OWNER.get().startswith("node"):
+            return
+        p = os.fspath(path)
+        if isinstance(p, bytes):
+            p = p.decode("utf-8", "surrogateescape")
+        if not isinstance(p, str):
+            return
+        rec(event, p)
+    except Exception:
+        pass
+
+
 def _audit(event, args):
     if FS.root is None or FS.busy:
         return
+    if FS.access is not None and event in _ACCESS_EVENTS:
+        idx = _ACCESS_EVENTS[event]
+        for i in (idx if isinstance(idx, tuple) else (idx,)):
+            if i < len(args) and args[i] is not None and not isinstance(args[i], int):
+                _record_access(event, args[i])
     try:
         if event == "open":
             path, mode, flags = args
@@ -223,6 +254,8 @@ def _fix(path, st, follow):
 
 
 def _stat(path, *a, **kw):
+    if FS.access is not None and not FS.busy and not isinstance(path, int):
+        _record_access("os.stat", path)
     if FS.root is not None and not FS.busy:
         if FS.dirty:
             fs_flush()
@@ -236,6 +269,8 @@ def _stat(path, *a, **kw):
 
 
 def _lstat(path, *a, **kw):
+    if FS.access is not None and not FS.busy and not isinstance(path, int):
+        _record_access("os.lstat", path)
     if FS.root is not None and not FS.busy:
         if FS.dirty:
             fs_flush()
